@@ -279,6 +279,11 @@ func (r *Route) goodRegexString(n, v string) {
 	if pos != -1 && pos < len(v) && v[pos+1] != '?' {
 		goutil.Panicf("invalid path var regex string, dont allow char '('. var: %s, regex: %s", n, v)
 	}
+
+	// a capturing group anywhere in the regex, not only a leading one: "(?:a)(b)"
+	if re, err := regexp.Compile(v); err == nil && re.NumSubexp() > 0 {
+		goutil.Panicf("invalid path var regex string, dont allow capturing groups. var: %s, regex: %s", n, v)
+	}
 }
 
 // check start string and match a regex route
